@@ -118,6 +118,7 @@ fn main() {
             debug::tryproj(seed, args.get(3).is_some())
         }
         Some("probe-alltypes") => build::probe_alltypes_main(&args[2]),
+        Some("costprobe") => debug::costprobe(),
         Some("inst") => debug::inst(&args[2], &args[3], args.get(4).map(|s| s.as_str()).unwrap_or("")),
         Some("hashprobe") => {
             let mut orders = std::collections::BTreeSet::new();
